@@ -179,3 +179,66 @@ def same_values(got, want, rtol=1e-14):
     if not np.array_equal(g[~fin], w[~fin], equal_nan=True):
         return False
     return bool(np.all(np.abs(g[fin] - w[fin]) <= rtol * np.abs(w[fin])))
+
+
+def harvest_sizes(rel_paths, lo=1000, hi=2**27):
+    """Integer constants in [lo, hi] that occur in the given source files of the package under test (literals and
+    constant expressions such as 1 << 22, 2**26, 300_000, 8 * 1024): candidate block / buffer / cache sizes. This is
+    the fuzzer's 'dictionary of magic numbers' idea applied to batch lengths: the sizes worth trying are the ones the
+    code itself mentions, whatever they are. Returns a sorted list (empty when the files mention none)."""
+    import ast
+    import os
+
+    repo = os.environ.get("NSSVERIF_REPO", "/repo")
+    found = set()
+
+    def const(node):
+        if isinstance(node, ast.Constant) and isinstance(node.value, int) and not isinstance(node.value, bool):
+            return node.value
+        if isinstance(node, ast.UnaryOp) and isinstance(node.op, ast.USub):
+            v = const(node.operand)
+            return -v if v is not None else None
+        if isinstance(node, ast.BinOp):
+            a, b = const(node.left), const(node.right)
+            if a is None or b is None:
+                return None
+            try:
+                if isinstance(node.op, ast.LShift) and 0 <= b < 40:
+                    return a << b
+                if isinstance(node.op, ast.Pow) and 0 <= b < 40 and abs(a) <= 1024:
+                    return a**b
+                if isinstance(node.op, ast.Mult):
+                    return a * b
+                if isinstance(node.op, ast.Add):
+                    return a + b
+                if isinstance(node.op, ast.Sub):
+                    return a - b
+                if isinstance(node.op, ast.FloorDiv) and b:
+                    return a // b
+            except (OverflowError, ValueError):
+                return None
+        return None
+
+    for rel in rel_paths:
+        path = os.path.join(repo, "src", "nuspacesim", rel)
+        try:
+            tree = ast.parse(open(path).read())
+        except (OSError, SyntaxError):
+            continue
+        for node in ast.walk(tree):
+            v = const(node)
+            if v is not None and lo <= v <= hi:
+                found.add(int(v))
+            if isinstance(node, ast.Constant) and isinstance(node.value, float) and float(node.value).is_integer() and lo <= node.value <= hi:
+                found.add(int(node.value))
+    return sorted(found)
+
+
+def harvested_edge_sizes(rel_paths, cap, lo=1000):
+    """c, c+1, 2c, 2c+1 for every harvested constant c, limited to `cap`."""
+    out = set()
+    for c in harvest_sizes(rel_paths, lo=lo):
+        for n in (c, c + 1, 2 * c, 2 * c + 1):
+            if n <= cap:
+                out.add(n)
+    return sorted(out)
